@@ -144,6 +144,9 @@ func (w *World) intrinsic(t *Thread, f *Frame, fnv FuncV, args []Val, c *ssa.Cal
 	if name == "" {
 		name = fnv.fn.String()
 	}
+	if fnv.fn != nil && fnv.fn.Name() == "init" && fnv.fn.Pkg != nil && fnv.fn.Pkg.Pkg.Path() != leaderPkg {
+		return nil, false // initialisers of dependencies: their globals are evaluated lazily (initValue)
+	}
 	if strings.HasPrefix(name, leaderPkg+".vp") {
 		return w.harnessAPI(t, f, strings.TrimPrefix(name, leaderPkg+"."), args)
 	}
